@@ -122,17 +122,18 @@ class PythonTranslator(ASTTranslator):
     def postLambda(translator, node):
         return 'lambda %s: %s' % (node.args.src, node.body.src)
     def postarguments(translator, node):
-        if node.defaults:
-            nodef_args = node.args[:-len(node.defaults)]
-            def_args = node.args[-len(node.defaults):]
-        else:
-            nodef_args = node.args
-            def_args = []
-
-        result = [arg.arg for arg in nodef_args]
-        result.extend('%s=%s' % (arg.arg, default.src) for arg, default in zip(def_args, node.defaults))
+        pos_args = node.posonlyargs + node.args
+        defaults = [None] * (len(pos_args) - len(node.defaults)) + node.defaults  # defaults belong to the last parameters
+        result = []
+        for i, (arg, default) in enumerate(zip(pos_args, defaults), 1):
+            result.append(arg.arg if default is None else '%s=%s' % (arg.arg, default.src))
+            if i == len(node.posonlyargs): result.append('/')
         if node.vararg:
             result.append('*%s' % node.vararg.arg)
+        elif node.kwonlyargs:
+            result.append('*')
+        for arg, default in zip(node.kwonlyargs, node.kw_defaults):
+            result.append(arg.arg if default is None else '%s=%s' % (arg.arg, default.src))
         if node.kwarg:
             result.append('**%s' % node.kwarg.arg)
         return ', '.join(result)
